@@ -18,6 +18,7 @@ import (
 	"strconv"
 	"strings"
 	"sync"
+	"sync/atomic"
 	"time"
 
 	"github.com/bilibili/gengine/engine"
@@ -111,7 +112,15 @@ type drv struct {
 	gatePub bool
 }
 
-var D *drv
+var D atomic.Value // *drv of the running session; the hook is installed once and dispatches through it
+
+func init() {
+	engine.VerifHook = func(site string, a, b int64) {
+		if d, ok := D.Load().(*drv); ok && d != nil {
+			d.hook(site, a, b)
+		}
+	}
+}
 
 // versioned rule text: every body logs (request, rule, tag), may trigger an update, returns the request id
 func versionText(rs []RuleV) string {
@@ -449,8 +458,7 @@ func runSession(s *Session, quiet time.Duration, seed int64) ([]obs.Event, bool)
 	all := []obs.Event{{"ev": "session", "id": s.ID}}
 	o := obs.New(s.Gated, quiet, seed+int64(s.ID)*271)
 	d := &drv{o: o, byGo: map[int64]int64{}, spun: map[int64]bool{}, reqs: map[int64]*Req{}, sess: s, trigged: map[int64]bool{}}
-	D = d
-	engine.VerifHook = d.hook
+	D.Store(d)
 	text := versionText(s.Rules)
 	if s.Kind == "isolation" || s.Kind == "capacity" {
 		text = isoText()
@@ -512,7 +520,7 @@ func runSession(s *Session, quiet time.Duration, seed int64) ([]obs.Event, bool)
 	}
 	o.StopController()
 	o.Settle(time.Millisecond)
-	engine.VerifHook = nil
+	D.Store((*drv)(nil))
 	all = append(all, o.Take()...)
 	if !ok {
 		all = append(all, obs.Event{"ev": "timeout"})
